@@ -252,6 +252,19 @@ class Evaluator:
             raise Inconclusive("cannot store through %r in %r" % (p, v))
         self.store[lv.loc] = upd(self.store[lv.loc], lv.path)
 
+    def is_quantity(self, t):
+        qs = self.__dict__.get("_qtypes")
+        if qs is None:
+            from . import quant
+            qs = self._qtypes = {n for n, q in quant.inventory(self.F).items() if q.kind == "quantity"}
+            # other numeric-type instantiations present in this shard
+            for n, r in self.F.records.items():
+                tm = r.get("template") or ""
+                if tm.startswith("PhQ::") and not tm.startswith("PhQ::Internal") and tm not in quant.BASES and tm not in quant.TENSORS \
+                        and not tm.startswith("PhQ::ConstitutiveModel"):
+                    qs.add(n)
+        return t in qs
+
     # ------------------------------------------------------------------ symbolic inputs
     def record_fields(self, tname):
         """Flattened (name, type) list of the non-static data members of a record, bases first."""
@@ -281,7 +294,7 @@ class Evaluator:
         if t in self.F.records:
             fs = self.record_fields(t)
             q = qtype
-            if q is None and t.startswith("PhQ::") and not re.match(r"PhQ::(Vector|PlanarVector|SymmetricDyad|Dyad)<", t):
+            if self.is_quantity(t):
                 q = t
             return Obj(t, {n: self.symbolic(ft, prefix + "." + n, q) for n, ft in fs})
         if t in self.F.enums:
@@ -731,8 +744,8 @@ class Evaluator:
             tot = strip_cvref(to)
             if frm == tot:
                 return v
-            if is_const(v) and self.fold:
-                return v
+            if is_const(v) and (self.fold or _exact_in(v[1], tot)):
+                return v   # value-preserving conversion of an exactly representable constant
             return ("cast", tot, v)
         if ck == "IntegralToFloating":
             if isinstance(v, int):
@@ -1011,9 +1024,9 @@ class Evaluator:
                 return Obj(t, {"_M_elems": Arr([z] * int(mm.group(2)))})
             raise Inconclusive("std::array initialiser shape")
         if t in self.F.records:
-            fs = self.record_fields(t)
-            if len(items) == len(fs):
-                return Obj(t, {n: v for (n, _), v in zip(fs, items)})
+            if len(items) == 1 and isinstance(items[0], Obj) and items[0].type == t:
+                return items[0]   # T{prvalue of T}: guaranteed elision
+            raise Inconclusive("aggregate-style initialisation of class " + t)
         if len(items) == 1:
             return items[0]
         if is_float_type(t) and not items:
@@ -1327,6 +1340,23 @@ class Evaluator:
     def _as_loc(self, v):
         lv = self.new_loc(v, "entry")
         return (lv.loc, lv.path)
+
+
+_MANT = {"float": 24, "double": 53, "long double": 64}
+
+
+def _exact_in(q, T):
+    if T not in _MANT:
+        return False
+    if q == 0:
+        return True
+    d = q.denominator
+    if d & (d - 1):
+        return False
+    n = abs(q.numerator)
+    while n % 2 == 0:
+        n //= 2
+    return n.bit_length() <= _MANT[T]
 
 
 def _freeze(v):
